@@ -30,7 +30,7 @@ type User implements Node & Named { id: ID! name(upper: Boolean, locale: String)
 type Post implements Node { id: ID! title: String author: User! }
 union Result = User | Post
 enum Kind { A B }
-input Filter { kind: Kind = A name: String nested: Filter ids: [ID!] }
+input Filter { kind: Kind = A name: String nested: Filter ids: [ID!] codes: [Int!]! = [1, 2] }
 scalar Version
 directive @all repeatable on SCHEMA | SCALAR | OBJECT | FIELD_DEFINITION | ARGUMENT_DEFINITION | INTERFACE | UNION | ENUM | ENUM_VALUE | INPUT_OBJECT | INPUT_FIELD_DEFINITION
 directive @one(n: Int = 1, k: Kind, f: Filter) on SCHEMA | SCALAR | OBJECT | FIELD_DEFINITION | ARGUMENT_DEFINITION | INTERFACE | UNION | ENUM | ENUM_VALUE | INPUT_OBJECT | INPUT_FIELD_DEFINITION
